@@ -329,8 +329,13 @@ func (w *window) eval(c Case, res *ev.Result, lc *local) {
 	lc.evals++
 	c.Start, c.Count, c.Poisoned, c.Default = w.c.Start, w.c.Count, w.c.Poisoned, w.c.Default
 	o := callAcc(w.regs, c)
-	if c.Acc[0] == 'S' && !bytes.Equal(w.data, w.pristine) {
-		copy(w.data, w.pristine) // mutation of the payload is C13's business; restore so that later cases see pristine bytes
+	if !bytes.Equal(w.data, w.pristine) {
+		// an accessor that rewrites the shared payload makes every later read of those registers return something that
+		// is no longer determined by the wire bytes (the systematic treatment of this is C13's; here it is reported and the
+		// payload restored so that later cases see pristine bytes)
+		res.Violate(ev.Violation{Check: "access", Kind: "payload-mutated", Attrs: map[string]any{"acc": c.Acc, "long": c.Len > 64},
+			Msg: fmt.Sprintf("%s(addr %d, len %d, order %d) on window [%d,+%d) rewrote the response payload", c.Acc, c.Addr, c.Len, c.Order, c.Start, c.Count), Case: c})
+		copy(w.data, w.pristine)
 	}
 	want, ok := expect(w.w, c)
 	width := "16"
